@@ -29,7 +29,7 @@ ASSUMPTIONS = [
 ]
 BUDGET = {
     "quick": {"examples": 500, "workers": 8, "time_cap": 70},
-    "thorough": {"examples": 20000, "workers": 14, "time_cap": 1500},
+    "thorough": {"examples": 20000, "workers": 14, "time_cap": 900},
 }
 HASH_KEYS_INFO = [b"pieces", b"files", b"file tree", b"piece length", b"name", b"length", b"meta version"]
 
